@@ -1,6 +1,7 @@
-from typing import List, Type
+from typing import Any, Dict, List, Set, Tuple, Type
 
 from sqlalchemy.inspection import inspect
+from sqlalchemy.orm import aliased
 from sqlalchemy.orm.attributes import InstrumentedAttribute
 from sqlalchemy.orm.decl_api import DeclarativeMeta
 from sqlalchemy.orm.relationships import RelationshipProperty
@@ -23,6 +24,11 @@ class AstToSqlAlchemyOrmVisitor(common._CommonVisitors, visitor.NodeVisitor):
     def __init__(self, root_model: Type[DeclarativeMeta]):
         self.root_model = root_model
         self.join_relationships: List[InstrumentedAttribute] = []
+        # The entity each navigated relationship leads to. A model that is
+        # reached a second time through another relationship needs an alias,
+        # or its table would appear twice under the same name.
+        self._entities: Dict[Tuple[int, str], Any] = {}
+        self._joined_models: Set[Any] = {root_model}
 
     def visit_Identifier(self, node: ast.Identifier) -> ColumnClause:
         ":meta private:"
@@ -46,12 +52,22 @@ class AstToSqlAlchemyOrmVisitor(common._CommonVisitors, visitor.NodeVisitor):
         if not isinstance(prop_inspect, RelationshipProperty):
             # TODO: new exception:
             raise ValueError(f"Not a relationship: {node.owner}")
-        self.join_relationships.append(rel_attr)
-
         # We'd like to reference the column on the related class:
         owner_cls = prop_inspect.entity.class_
+        entity_key = (id(rel_attr.parent), rel_attr.key)
+        if entity_key not in self._entities:
+            if owner_cls in self._joined_models:
+                self._entities[entity_key] = aliased(owner_cls)
+            else:
+                self._entities[entity_key] = owner_cls
+                self._joined_models.add(owner_cls)
+        entity = self._entities[entity_key]
+        self.join_relationships.append(
+            rel_attr if entity is owner_cls else rel_attr.of_type(entity)
+        )
+
         try:
-            field = getattr(owner_cls, node.attr)
+            field = getattr(entity, node.attr)
         except AttributeError:
             raise ex.InvalidFieldException(node.attr)
 
